@@ -60,6 +60,7 @@ class StructureMetaType(MetaType):
     __anonymous__: bool
     __updating__ = False
     __compiled__ = False
+    __shared_defaults__: dict[str, tuple[Any, type[BaseType]]] = {}  # noqa: RUF012
 
     def __new__(metacls, name: str, bases: tuple[type, ...], classdict: dict[str, Any]) -> Self:  # type: ignore
         if (fields := classdict.pop("fields", None)) is not None:
@@ -81,9 +82,16 @@ class StructureMetaType(MetaType):
             obj = type.__call__(cls)
             object.__setattr__(obj, "_values", {})
             object.__setattr__(obj, "_sizes", {})
-            return obj
+        else:
+            obj = super().__call__(*args, **kwargs)
 
-        return super().__call__(*args, **kwargs)
+        # The default values live in the generated __init__ and are shared by all instances of the class
+        # Give this instance its own copy of the mutable ones (arrays and nested structures)
+        for name, (default, type_) in cls.__shared_defaults__.items():
+            if obj.__dict__.get(name) is default:
+                object.__setattr__(obj, name, type_.__default__())
+
+        return obj
 
     def _update_fields(
         cls, fields: list[Field], align: bool = False, classdict: dict[str, Any] | None = None
@@ -118,11 +126,20 @@ class StructureMetaType(MetaType):
             classdict["__init__"] = _generate_union__init__(raw_lookup.values())
             # Not a great way to do this but it works for now
             classdict["__eq__"] = Union.__eq__
+            defaults = classdict["__init__"].__code__.co_consts[2::2]
         else:
             classdict["__init__"] = _generate_structure__init__(raw_lookup.values())
             classdict["__eq__"] = _generate__eq__(field_names)
+            defaults = classdict["__init__"].__code__.co_consts[1:]
 
         classdict["__hash__"] = _generate__hash__(field_names)
+
+        # The default values are created once and shared, remember the mutable ones so that instances can get a copy
+        classdict["__shared_defaults__"] = {
+            field._name: (default, field.type)
+            for field, default in zip(raw_lookup.values(), defaults)
+            if isinstance(default, (list, Structure))
+        }
 
         # If we're calling this as a class method or a function on the metaclass
         if issubclass(cls, type):
